@@ -430,7 +430,7 @@ def replay(body) -> int:
 
 def run_check(prop, tier, master, n_runs=None, budget_s=None):
     t0 = time.time()
-    budget_s = budget_s or (170 if tier == "quick" else 2400)
+    budget_s = core.budget(tier, budget_s)
     nproc = n_runs or (48 if tier == "quick" else 480)
     res, errors, skipped = common.run_machine_batch("sim.machines.c15", f"C15-{tier}", master, nproc, 70 if tier == "quick" else 250, 20, budget_s * 0.6, extra={"real_fit": tier == "thorough"})
     summ, viol = common.summarise(res)
